@@ -181,7 +181,8 @@ def real_use_blocks(b, copies):
             else:
                 reads = [o["pl"]["l"] for o in rv.get("ops", []) if o["k"] in ("copy", "move")]
             if any(r in copies for r in reads):
-                plain = not st["dst"]["p"] and st["dst"]["l"] in copies and (
+                # (moving the value into the return place is a use: the caller sees it)
+                plain = not st["dst"]["p"] and st["dst"]["l"] in copies and st["dst"]["l"] != 0 and (
                     k in ("use", "ref") or (k == "agg" and len(rv.get("ops", [])) == 1) or k == "discr")
                 if not plain and k != "discr":
                     uses.add(i)
@@ -239,7 +240,7 @@ def last_value_only(g, bid):
         if local not in outside:
             continue      # bound afresh in every iteration (pattern binding, temporary): not loop-carried
         ty = b.locals[local]["ty"]
-        if ty in ("()", "bool") or ty.startswith(("&mut", "std::ops::ControlFlow", "std::option::Option<std::result", "std::result::Result")):
+        if ty in ("()",) or ty.startswith(("&mut", "std::ops::ControlFlow", "std::option::Option<std::result", "std::result::Result")):
             continue
         copies = copies_of(b, local)
         uses = real_use_blocks(b, copies)
@@ -272,7 +273,9 @@ def last_value_only(g, bid):
                 # an accumulator (its new value is computed from its old one) carries every iteration forward
                 from ..flow import DATA, ALIAS
                 from .lenguard import _rev
-                par = g.reach([(bid, local)], kinds=(DATA, ALIAS))
+                # (not through the return place: `_0` is written on every exit, and its alias edges would tie
+                # the `?` residuals of unrelated calls to the value)
+                par = g.reach([(bid, local)], kinds=(DATA, ALIAS), cut=lambda n_, e_: n_ == (bid, 0) or e_.dst == (bid, 0))
                 reached = {st_[0] for st_ in par}
                 self_dep = any(a in reached and a != (bid, local) and e.kind == DATA
                                for (a, e) in _rev(g).get((bid, local), ()))
